@@ -3,7 +3,9 @@ package main
 import (
 	"bytes"
 	"fmt"
+	"runtime"
 	"strings"
+	"sync"
 
 	"github.com/insomniacslk/dhcp/dhcpv4"
 )
@@ -208,6 +210,57 @@ func oracleC07(r *Rng, n int, thorough bool, seeds []string) *OracleResult {
 		}()
 		if what != "" {
 			res.fail(Failure{Oracle: "c07", Input: "v4enc " + showPkt4(&q), What: what, Class: "v4-canonical"})
+		}
+	}
+	// "packets with equal contents always encode to identical bytes" - also when several
+	// goroutines encode at once, after messages of every size have been encoded before
+	// (seeded change C07-15: a pooled encoder put back twice by any message beyond 576
+	// octets, so that two later concurrent encodings could share it)
+	{
+		rr := r.Fork()
+		for k := 0; k < 8; k++ {
+			big := genPkt4(rr, true)
+			big.Options[43] = rr.Bytes(rr.Pick([]int{400, 700, 1400}))
+			big.ToBytes()
+		}
+		workers, rounds := 2*runtime.GOMAXPROCS(0), 300
+		if thorough {
+			rounds = 3000
+		}
+		pkts := make([]*dhcpv4.DHCPv4, workers)
+		want := make([][]byte, workers)
+		for w := range pkts {
+			pkts[w] = genPkt4(rr, true)
+			pkts[w].Options[uint8(200+w%50)] = []byte{byte(w), byte(w >> 8)}
+			want[w] = pkts[w].ToBytes()
+		}
+		bad := make([]string, workers)
+		var wg sync.WaitGroup
+		for w := range pkts {
+			wg.Add(1)
+			go func(w int) {
+				defer wg.Done()
+				defer func() {
+					if e := recover(); e != nil {
+						bad[w] = fmt.Sprint("ToBytes panicked: ", e)
+					}
+				}()
+				for i := 0; i < rounds; i++ {
+					if b := pkts[w].ToBytes(); !bytes.Equal(b, want[w]) {
+						bad[w] = fmt.Sprintf("encoding %d of a packet nobody else touches differs from its first encoding: %s", i+1, firstDiff(hx(want[w]), hx(b)))
+						return
+					}
+				}
+			}(w)
+		}
+		wg.Wait()
+		res.Evaluations++
+		res.Tags["concurrent-encodings"]++
+		for w, b := range bad {
+			if b != "" {
+				res.fail(Failure{Oracle: "c07", Input: fmt.Sprintf("concurrent-encodings workers=%d rounds=%d worker=%d", workers, rounds, w), What: b, Class: "v4-canonical-concurrent"})
+				break
+			}
 		}
 	}
 	for _, s := range seeds {
